@@ -12,7 +12,9 @@ EXPLANATION = (
     "insert/remove (address bytes followed by the length byte); R12.2 the classification guards: matched.push is reached only "
     "under route_len <= max_length, as_number != 0 and as_number == origin; Valid iff matched non-empty, Invalid iff matched "
     "empty and an unmatched list non-empty, default NotFound; the covering test itself (VRP prefix contains the route prefix) "
-    "must be implied by the lookup; R12.3 insert's duplicate test and remove's retain test compare the same three fields. "
+    "must be implied by the lookup; R12.3 insert's duplicate test and remove's retain test compare the same three fields; "
+    "R12.4 the policy evaluator is handed the RPKI table whenever an assigned policy tests the state: needs_rpki is computed "
+    "over the complete policy list of the assignment (shared with R14.6). "
     "Decides lookup direction and guard structure, not equality with RFC 6811 over all VRP sets.")
 ASSUMPTIONS = [
     "patricia_tree::PatriciaMap: iter_prefix(k) yields keys having k as a prefix (descendants); common_prefixes(k) yields keys that are prefixes of k (ancestors); get(k) is exact",
@@ -446,6 +448,13 @@ def run(prog, rep, tier):
             r3.fail(dsv.name, "remove-then-advance", "drop_source advances the index (line %d) right after removing element i: VRPs of a dropped cache survive and keep validating routes" % dsv.line(bad), dsv.loc(rb))
     check_vrp_identity(prog, r3)
 
+    # ---------------------------------------------------------------- R12.4
+    # The policy evaluator sees an RFC 6811 state only when the assignment's needs_rpki flag is set (without the table every
+    # Condition::Rpki is false while the API still reports the state): the flag must cover the complete list (shared with R14.6).
+    r4 = rep.rule("R12.4", "the RPKI table reaches policy evaluation whenever an assigned policy tests the validation state: needs_rpki is computed over the complete policy list")
+    from . import c14 as _c14
+    _c14.check_needs_rpki(prog, r4)
+
 
 def check_vrp_identity(prog, r3):
     """A VRP is identified by (cache, max-length, AS): insert's duplicate test, remove's retain test and drop_source agree."""
@@ -522,3 +531,4 @@ def check_vrp_identity(prog, r3):
         r3.ok("drop_source matches by Arc identity of the cache address (same identity insert/remove use)")
     else:
         r3.fail(dfv.name, "drop-identity", "drop_source does not match VRPs by the cache identity used by insert/remove", dfv.loc())
+
